@@ -936,12 +936,18 @@ run_real_case(const std::string& name, const Geo& g, const Data& d, RunCfg c, vh
         }
     }
 
-  // ---- C: restart at every k (with the configured save interval), enforce_initial_positivity on and off
+  // ---- C: restart at every k (with the configured save interval), enforce_initial_positivity on and off.
+  //         enf == c.enforce: the resumed reconstruction has the configuration of the uninterrupted one (the property's
+  //         statement, judged strictly).  enf != c.enforce: the option was changed for the resumed run: switching it OFF
+  //         must still reproduce the run (the state is (image_k, k) only); switching it ON for a run that was made with
+  //         it off is another configuration (set_up is documented to lift the non-positive values of the image it is
+  //         given), judged only when set_up had nothing to lift.
   for (int enf = 0; enf < 2; ++enf)
     for (int k = 1; k < c.N; ++k)
       {
         RunCfg cr = c;
         cr.enforce = enf != 0;
+        const bool same_cfg = cr.enforce == c.enforce;
         const std::string prefC = g_outdir + "/" + name + "_r" + std::to_string(enf) + "_" + std::to_string(k);
         try
           {
@@ -951,6 +957,14 @@ run_real_case(const std::string& name, const Geo& g, const Data& d, RunCfg c, vh
             if (C.recon->set_up(imc) != Succeeded::yes)
               throw std::runtime_error("set_up C");
             const Vec after_setup = to_vec(*imc);
+            { // what set_up of the resumed run does to the saved image: an operation for the Lean model (`setUp`)
+              put_cfg("restart", g.nvox, cr);
+              std::fprintf(g_ops, "setup V ");
+              put_vec(g_ops, loaded);
+              std::fprintf(g_ops, "\n");
+              put_vec(g_out, after_setup);
+              std::fprintf(g_out, "\n");
+            }
             C.recon->reconstruct(imc);
             bool same = true;
             int first_diff = -1;
